@@ -367,18 +367,37 @@ theorem input_ok (ob : Obligations I scan) (s : DState) (g : γ) (op : DOp) (t :
   | cmd c => exact ob.command s g t c h
   | datagram tid body src => exact ob.datagram s g t tid body src h
   | garbage src => exact ob.garbage s g t src h
+  | worker => exact bRun_ok ob bFuel s g t h
+  | timer1 =>
+    show Ok I scan g t ((s.fireOne t).getD (s, []))
+    cases hf : s.fireOne t with
+    | none => exact ok_nil s g t h
+    | some r => exact ob.timer s g t r h hf
+  | observe => exact ob.observe s g t h
 
-theorem step_ok (ob : Obligations I scan) (s : DState) (g : γ) (op : DOp) (t : Nat) (bf : Bool) (h : I s g) :
-    OkT I scan g (s.step op t bf) := by
-  unfold DState.step
+theorem inputs_ok (ob : Obligations I scan) (ops : List DOp) (s : DState) (g : γ) (t : Nat) (h : I s g) :
+    Ok I scan g t (s.inputs ops t) := by
+  induction ops generalizing s g with
+  | nil => exact ok_nil s g t h
+  | cons op rest ih =>
+    unfold DState.inputs
+    simp only
+    exact Ok.seq (s1 := (s.input op t).1) (e1 := (s.input op t).2) (input_ok ob s g op t h) (fun g' hi => ih _ g' hi)
+
+/-- the generalised step (several inputs back to back, possibly interleaved with explicit scheduler
+choices at the same instant) is a sequence of the same kinds of transitions -/
+theorem stepG_ok (ob : Obligations I scan) (s : DState) (g : γ) (ops : List DOp) (t : Nat) (bf : Bool) (hold : Bool)
+    (h : I s g) : OkT I scan g (s.stepG ops t bf hold) := by
+  unfold DState.stepG
   simp only
-  obtain ⟨g1, hs1, hi1⟩ := advance_ok ob bf advFuel s g (max t s.clock) h
+  generalize (if hold = true then max t s.clock - 1 else max t s.clock) = upTo
+  obtain ⟨g1, hs1, hi1⟩ := advance_ok ob bf advFuel s g upTo h
   have h2 : Ok I scan g1 (max t s.clock)
-      ((({ (DState.advance bf advFuel s (max t s.clock)).1 with clock := max t s.clock }).input op (max t s.clock)).1.settle (max t s.clock) |>.1,
-       (({ (DState.advance bf advFuel s (max t s.clock)).1 with clock := max t s.clock }).input op (max t s.clock)).2 ++
-       ((({ (DState.advance bf advFuel s (max t s.clock)).1 with clock := max t s.clock }).input op (max t s.clock)).1.settle (max t s.clock)).2) :=
-    Ok.seq (s1 := (({ (DState.advance bf advFuel s (max t s.clock)).1 with clock := max t s.clock }).input op (max t s.clock)).1)
-      (input_ok ob _ g1 op _ (ob.clock _ g1 _ hi1)) (fun g' hi => settle_ok ob _ g' _ hi)
+      ((({ (DState.advance bf advFuel s upTo).1 with clock := max t s.clock }).inputs ops (max t s.clock)).1.settle (max t s.clock) |>.1,
+       (({ (DState.advance bf advFuel s upTo).1 with clock := max t s.clock }).inputs ops (max t s.clock)).2 ++
+       ((({ (DState.advance bf advFuel s upTo).1 with clock := max t s.clock }).inputs ops (max t s.clock)).1.settle (max t s.clock)).2) :=
+    Ok.seq (s1 := (({ (DState.advance bf advFuel s upTo).1 with clock := max t s.clock }).inputs ops (max t s.clock)).1)
+      (inputs_ok ob ops _ g1 _ (ob.clock _ g1 _ hi1)) (fun g' hi => settle_ok ob _ g' _ hi)
   obtain ⟨g2, hs2, hi2⟩ := h2
   refine ⟨g2, ?_, hi2⟩
   rw [scanT_append, hs1]
@@ -386,8 +405,11 @@ theorem step_ok (ob : Obligations I scan) (s : DState) (g : γ) (op : DOp) (t : 
   rw [scanT_stamp]
   exact hs2
 
+theorem step_ok (ob : Obligations I scan) (s : DState) (g : γ) (op : DOp) (t : Nat) (bf : Bool) (h : I s g) :
+    OkT I scan g (s.step op t bf) := stepG_ok ob s g [op] t bf false h
+
 theorem stepIn_ok (ob : Obligations I scan) (s : DState) (g : γ) (i : DInput) (h : I s g) : OkT I scan g (s.stepIn i) :=
-  step_ok ob _ g i.op i.t i.bFirst (ob.oracle s g i.fr h)
+  stepG_ok ob _ g i.ops i.t i.bFirst i.hold (ob.oracle s g i.fr h)
 
 /-- **monitored invariants hold along every run**: if the monitor accepts each kind of transition
 and the invariant is re-established, it accepts the event sequence of every run -/
@@ -595,9 +617,9 @@ theorem periodicCheck_frame (s : DState) (now : Nat) :
 
 /-- **the worker's own transitions** touch nothing of the handler but the routing table, and emit
 only worker events -/
-theorem bStep_frame (s : DState) (now : Nat) (r : DState × List DEv) (hb : s.bStep now = some r) :
+theorem bStepMain_frame (s : DState) (now : Nat) (r : DState × List DEv) (hb : s.bStepMain now = some r) :
     WFrame s r.1 ∧ ∀ e ∈ r.2, e.isWorker = true := by
-  unfold DState.bStep at hb
+  unfold DState.bStepMain at hb
   split at hb
   · simp at hb
   · simp at hb
@@ -683,6 +705,26 @@ theorem workerMessage_frame (s : DState) (p : Pending) (body : Body) (src : Addr
       · exact ⟨wframe_fields _ _ _ _ _ _, by simp⟩
     · exact ⟨wframe_fields _ _ _ _ _ _, by simp⟩
 
+theorem isWorkerMsg_of_isWorker (e : DEv) (h : e.isWorker = true) : e.isWorkerMsg = true := by
+  cases e <;> simp_all [DEv.isWorkerMsg, DEv.isWorker]
+
+/-- dropping / adding answers waiting for the worker touches nothing the frame speaks about -/
+theorem wframe_ready (s : DState) (r : List (Pending × Body × Addr)) : WFrame s { s with ready := r } :=
+  ⟨rfl, rfl, rfl, rfl, rfl, rfl, rfl, rfl, rfl, rfl, Nat.le_refl _, fun _ => rfl⟩
+
+/-- **every transition of the worker** (handling an answer that was routed to it, or one of its
+own transitions) touches nothing of the handler but the routing table -/
+theorem bStep_frame (s : DState) (now : Nat) (r : DState × List DEv) (hb : s.bStep now = some r) :
+    WFrame s r.1 ∧ ∀ e ∈ r.2, e.isWorkerMsg = true := by
+  unfold DState.bStep at hb
+  split at hb
+  · simp only [Option.some.injEq] at hb; subst hb
+    rename_i p body src rest _
+    have h := workerMessage_frame { s with ready := rest } p body src now
+    exact ⟨WFrame.trans (wframe_ready s rest) h.1, h.2⟩
+  · have h := bStepMain_frame s now r hb
+    exact ⟨h.1, fun e he => isWorkerMsg_of_isWorker e (h.2 e he)⟩
+
 theorem startLookup_once (s : DState) (ih : Bytes) (ann : Bool) (now : Nat) (h : s.bootstrappedOnce = true) :
     s.startLookup ih ann now = ({ s with h := (s.h.startLookup ih ann now).1 }, liftH (s.h.startLookup ih ann now).2.1) := by
   unfold DState.startLookup
@@ -700,24 +742,26 @@ structure HFrame (s s' : DState) : Prop where
   pub : s'.pub = s.pub
   version : s'.pubVersion = s.pubVersion
   addr : s'.addr = s.addr
+  ready : s'.ready = s.ready
 
-theorem HFrame.refl (s : DState) : HFrame s s := ⟨rfl, rfl, rfl, rfl, rfl, rfl, rfl, rfl⟩
+theorem HFrame.refl (s : DState) : HFrame s s := ⟨rfl, rfl, rfl, rfl, rfl, rfl, rfl, rfl, rfl⟩
 
 theorem HFrame.trans {a b c : DState} (h1 : HFrame a b) (h2 : HFrame b c) : HFrame a c :=
   ⟨h2.cfg.trans h1.cfg, h2.phase.trans h1.phase, h2.attempt.trans h1.attempt, h2.bseq.trans h1.bseq,
-   h2.stale.trans h1.stale, h2.pub.trans h1.pub, h2.version.trans h1.version, h2.addr.trans h1.addr⟩
+   h2.stale.trans h1.stale, h2.pub.trans h1.pub, h2.version.trans h1.version, h2.addr.trans h1.addr,
+   h2.ready.trans h1.ready⟩
 
 theorem refreshRound_hframe (s : DState) (now : Nat) : HFrame s (s.refreshRound now).1 ∧
     (s.refreshRound now).1.waiters = s.waiters ∧ (s.refreshRound now).1.seenVersion = s.seenVersion := by
   unfold DState.refreshRound
-  exact ⟨⟨rfl, rfl, rfl, rfl, rfl, rfl, rfl, rfl⟩, rfl, rfl⟩
+  exact ⟨⟨rfl, rfl, rfl, rfl, rfl, rfl, rfl, rfl, rfl⟩, rfl, rfl⟩
 
 theorem startLookup_hframe (s : DState) (ih : Bytes) (ann : Bool) (now : Nat) : HFrame s (s.startLookup ih ann now).1 ∧
     (s.startLookup ih ann now).1.waiters = s.waiters ∧ (s.startLookup ih ann now).1.seenVersion = s.seenVersion := by
   unfold DState.startLookup
   split
-  · exact ⟨⟨rfl, rfl, rfl, rfl, rfl, rfl, rfl, rfl⟩, rfl, rfl⟩
-  · exact ⟨⟨rfl, rfl, rfl, rfl, rfl, rfl, rfl, rfl⟩, rfl, rfl⟩
+  · exact ⟨⟨rfl, rfl, rfl, rfl, rfl, rfl, rfl, rfl, rfl⟩, rfl, rfl⟩
+  · exact ⟨⟨rfl, rfl, rfl, rfl, rfl, rfl, rfl, rfl, rfl⟩, rfl, rfl⟩
 
 theorem startQueued_hframe (s : DState) (now : Nat) : HFrame s (s.startQueued now).1 ∧
     (s.startQueued now).1.waiters = s.waiters ∧ (s.startQueued now).1.seenVersion = s.seenVersion := by
@@ -727,7 +771,7 @@ theorem startQueued_hframe (s : DState) (now : Nat) : HFrame s (s.startQueued no
     (fun b a hb => by
       have h := startLookup_hframe b.1 a.1 a.2 now
       exact ⟨HFrame.trans hb.1 h.1, h.2.1.trans hb.2.1, h.2.2.trans hb.2.2⟩)
-    s.queued ({ s with queued := [] }, []) ⟨⟨rfl, rfl, rfl, rfl, rfl, rfl, rfl, rfl⟩, rfl, rfl⟩
+    s.queued ({ s with queued := [] }, []) ⟨⟨rfl, rfl, rfl, rfl, rfl, rfl, rfl, rfl, rfl⟩, rfl, rfl⟩
   exact hf
 
 theorem firstRefresh_hframe (s : DState) (now : Nat) : HFrame s (s.firstRefresh now).1 ∧
@@ -736,7 +780,7 @@ theorem firstRefresh_hframe (s : DState) (now : Nat) : HFrame s (s.firstRefresh 
   split
   · exact ⟨HFrame.refl s, rfl, rfl⟩
   · have h := refreshRound_hframe { s with refreshStarted := true } now
-    exact ⟨HFrame.trans (b := { s with refreshStarted := true }) ⟨rfl, rfl, rfl, rfl, rfl, rfl, rfl, rfl⟩ h.1, h.2.1, h.2.2⟩
+    exact ⟨HFrame.trans (b := { s with refreshStarted := true }) ⟨rfl, rfl, rfl, rfl, rfl, rfl, rfl, rfl, rfl⟩ h.1, h.2.1, h.2.2⟩
 
 /-- handling a bootstrap completion: worker state untouched, nobody left waiting -/
 theorem bootstrapSuccess_hframe (s : DState) (now : Nat) : HFrame s (s.bootstrapSuccess now).1 ∧
@@ -745,8 +789,8 @@ theorem bootstrapSuccess_hframe (s : DState) (now : Nat) : HFrame s (s.bootstrap
   simp only
   have h1 := firstRefresh_hframe { s with waiters := [] } now
   have h2 := startQueued_hframe { (({ s with waiters := [] } : DState).firstRefresh now).1 with bootstrappedOnce := true } now
-  refine ⟨HFrame.trans (HFrame.trans (b := { s with waiters := [] }) ⟨rfl, rfl, rfl, rfl, rfl, rfl, rfl, rfl⟩ h1.1)
-    (HFrame.trans (b := { (({ s with waiters := [] } : DState).firstRefresh now).1 with bootstrappedOnce := true }) ⟨rfl, rfl, rfl, rfl, rfl, rfl, rfl, rfl⟩ h2.1), ?_, ?_⟩
+  refine ⟨HFrame.trans (HFrame.trans (b := { s with waiters := [] }) ⟨rfl, rfl, rfl, rfl, rfl, rfl, rfl, rfl, rfl⟩ h1.1)
+    (HFrame.trans (b := { (({ s with waiters := [] } : DState).firstRefresh now).1 with bootstrappedOnce := true }) ⟨rfl, rfl, rfl, rfl, rfl, rfl, rfl, rfl, rfl⟩ h2.1), ?_, ?_⟩
   · rw [h2.2.1]; exact h1.2.1
   · rw [h2.2.2]; exact h1.2.2
 
@@ -762,9 +806,9 @@ theorem fireOne_hframe (s : DState) (now : Nat) (r : DState × List DEv) (hf : s
     · split at hf
       · simp only [Option.some.injEq] at hf; subst hf
         have h := refreshRound_hframe { s with h := { s.h with timer := timer } } now
-        exact ⟨HFrame.trans (b := { s with h := { s.h with timer := timer } }) ⟨rfl, rfl, rfl, rfl, rfl, rfl, rfl, rfl⟩ h.1, h.2.1, h.2.2⟩
+        exact ⟨HFrame.trans (b := { s with h := { s.h with timer := timer } }) ⟨rfl, rfl, rfl, rfl, rfl, rfl, rfl, rfl, rfl⟩ h.1, h.2.1, h.2.2⟩
       · simp only [Option.some.injEq] at hf; subst hf
-        exact ⟨⟨rfl, rfl, rfl, rfl, rfl, rfl, rfl, rfl⟩, rfl, rfl⟩
+        exact ⟨⟨rfl, rfl, rfl, rfl, rfl, rfl, rfl, rfl, rfl⟩, rfl, rfl⟩
     · simp at hf
 
 end Btdht
